@@ -11,7 +11,7 @@ dict.c / dict2pid.c / decoder.c (ASan/UBSan, asserts on) and on the model's own 
 outputs diffed.  Oracle: the property evaluated in Python on what the C code returned (ids, phone strings,
 dumps with alt chains, hypotheses), also on the full en-us dictionary where the list-based model is not run.
 """
-import json, os, re, shutil
+import json, os, pathlib, re, shutil
 import vlib
 
 MODELDIR = lambda: vlib.REPO / "model" / "en-us"
@@ -720,14 +720,205 @@ def d61_report(c, binp, mdef_line):
         c.violation(witness, True, tag="d61", finding_key=D61_KEY)
 
 
-def run_both(c, binp, ops, timeout=900, model=True):
+def run_both(c, binp, ops, timeout=900, model=True, modeldir=None, mdef_file=None):
     text = "\n".join(ops) + "\n"
-    rc, out, err = vlib.run_bin(binp, args=[c.scratch, MODELDIR(), RAW()], stdin_text=text, timeout=timeout,
+    rc, out, err = vlib.run_bin(binp, args=[c.scratch, modeldir or MODELDIR(), RAW()], stdin_text=text, timeout=timeout,
                                 env_extra={"C16_D2P_TOL": d2p_tol()})
     if not model:
         return (rc, out, err), (0, "", "")
-    rc2, mout, merr = run_driver(c, text, timeout=timeout)
+    rc2, mout, merr = run_driver(c, text, timeout=timeout, mdef_file=mdef_file)
     return (rc, out, err), (rc2, mout, merr)
+
+
+# --------------------------------------------------------------------------
+# the dict2pid tables after loads and after run-time additions, both shipped models (C16_d2p_macros_exact)
+
+def model_tables(c, binp, modeldir):
+    """phones, silence id and the cd_tree dump of one acoustic model"""
+    dump = c.scratch / f"mdef-{modeldir.name}.dump"
+    rc, out, err = vlib.run_bin(binp, args=["mdefdump", modeldir, dump])
+    if rc != 0 or not out.startswith("mdefdump ok"):
+        return None
+    rc, out, err = vlib.run_bin(binp, args=["phones", modeldir])
+    if rc != 0:
+        return None
+    return [unhx(x) for x in out.split("\n")[0].split()], int(out.split("\n")[1].split()[1]), dump
+
+
+def gen_d2p_case(g, phones, sil):
+    """a small dictionary whose words share first / last diphones, with one-phone words and lengths 1, 2, 3, 4+; then
+    run-time additions aimed at every branch of dict2pid_add_word (first pair new / known, last pair new / known,
+    one-phone word new / known); every written row of the tables is dumped after the load and after every addition,
+    dict2pid_internal for every word"""
+    r = g.rng
+    silname = phones[sil]
+    real = [p for p in g.real if p != silname] or g.real
+    pool = [r.choice(real) for _ in range(r.range(3, 6))]
+    firsts, lasts, singles, words = set(), set(), set(), []
+
+    def pron(n):
+        p = [r.choice(pool) if r.chance(0.8) else r.choice(real) for _ in range(n)]
+        if n >= 3 and r.chance(0.12):
+            p[r.range(1, n - 2)] = silname        # silence as a word-internal context (second / second-last phone)
+        return p
+
+    def note(p):
+        if len(p) == 1:
+            singles.add(p[0])
+        else:
+            firsts.add((p[0], p[1]))
+            lasts.add((p[-1], p[-2]))
+
+    ops = ["begin dec 0"]
+    nload = r.range(0, 12)
+    for i in range(nload):
+        n = r.weighted([(1, 3), (2, 3), (3, 3), (4, 2), (r.range(5, 9), 1)])
+        p = pron(n)
+        w = g.fresh()
+        ops.append(f"load {hx(w)} {hx(b' '.join(p))}")
+        note(p)
+        words.append(w)
+        g.hit("d2p_family_load_len", str(min(n, 5)) + ("+" if n >= 5 else ""))
+    for w in (b"<s>", b"</s>", b"<sil>"):
+        ops.append(f"fload {hx(w)} {hx(silname)}")
+    singles.add(silname)
+    ops += ["init", "mgood", "tabs", "d2p"]
+    ops += [f"intern {hx(w)}" for w in words]
+    for i in range(r.range(5, 14)):
+        kind = r.weighted([("final-new", 4), ("final-known", 4), ("first-new", 2), ("first-known", 3), ("single-new", 2),
+                           ("single-known", 2), ("both-known", 2), ("any", 3)])
+        n = r.weighted([(2, 4), (3, 4), (4, 3), (r.range(5, 9), 1)])
+        p = pron(n)
+        if kind == "final-known" and lasts:
+            e, l2 = r.choice(sorted(lasts))
+            p[-1], p[-2] = e, l2
+        elif kind == "first-known" and firsts:
+            b, x = r.choice(sorted(firsts))
+            p[0], p[1] = b, x
+        elif kind == "both-known" and firsts and lasts:
+            b, x = r.choice(sorted(firsts))
+            e, l2 = r.choice(sorted(lasts))
+            p = [b, x] + p[2:] + [l2, e]
+        elif kind == "final-new":
+            for _ in range(20):
+                if (p[-1], p[-2]) not in lasts:
+                    break
+                p[-1], p[-2] = r.choice(real), r.choice(real)
+        elif kind == "first-new":
+            for _ in range(20):
+                if (p[0], p[1]) not in firsts:
+                    break
+                p[0], p[1] = r.choice(real), r.choice(real)
+        elif kind == "single-new":
+            cand = [x for x in real if x not in singles]
+            p = [r.choice(cand or real)]
+        elif kind == "single-known":
+            p = [r.choice(sorted(singles))]
+        what = ("single-" + ("known" if p[0] in singles else "new")) if len(p) == 1 else \
+            ("first-" + ("known" if (p[0], p[1]) in firsts else "new") + ",final-" + ("known" if (p[-1], p[-2]) in lasts else "new"))
+        g.hit("d2p_family_add", what)
+        g.hit("d2p_family_add_len", str(min(len(p), 5)) + ("+" if len(p) >= 5 else ""))
+        w = g.fresh()
+        ops.append(f"add {hx(w)} {hx(b' '.join(p))} 0")
+        ops.append("tabs")
+        if len(p) > 2 or r.chance(0.3):
+            ops.append(f"intern {hx(w)}")
+        note(p)
+        words.append(w)
+    ops += ["d2p", "dump"]
+    return ops
+
+
+def judge_d2p(c, binp, ops, modeldir, phones, sil, dump, label):
+    """real dict2pid tables = model-built tables, cell by cell (every written ldiph_lc / lrdiph_rc row, every rssid row
+    with its n_ssid ids and its cimap, dict2pid_internal), on the acoustic model in `modeldir`"""
+    mdef_line = f"mdefx {sil} " + " ".join(hx(p) for p in phones)
+
+    def run(body):
+        full = [mdef_line] + body
+        (rc, out, err), (rc2, mout, merr) = run_both(c, binp, full, modeldir=modeldir, mdef_file=dump)
+        ho, mo = out.rstrip("\n").split("\n"), mout.rstrip("\n").split("\n")
+        bad = oracle_eval(full, ho, phones, sil, set()) if rc == 0 else []
+        return full, rc, rc2, ho, mo, err, bad
+    full, rc, rc2, ho, mo, err, bad = run(ops)
+    if rc == 0 and rc2 == 0 and ho == mo and not bad:
+        return True
+    head, body = split_prefix(ops)
+
+    def fails(sub):
+        _, r1, r2, h, m, _, b = run(head + sub)
+        return r1 != 0 or r2 != 0 or h != m or bool(b)
+    small = vlib.ddmin(body, fails, max_tests=60)
+    loads = [o for o in head if o.startswith("load ")]
+    rest = [o for o in head if not o.startswith("load ")]
+
+    def fails_loads(sub):
+        nonlocal head
+        saved = head
+        head = rest[:1] + sub + rest[1:]
+        try:
+            return fails(small)
+        finally:
+            head = saved
+    keep = vlib.ddmin(loads, fails_loads, max_tests=40)
+    if fails_loads(keep):
+        head = rest[:1] + keep + rest[1:]
+    sc = head + small
+    full, rc, rc2, ho, mo, err, bad = run(sc)
+    if rc == 0 and rc2 == 0 and ho == mo and not bad:
+        sc = ops
+        full, rc, rc2, ho, mo, err, bad = run(sc)
+    first = next((i for i in range(max(len(ho), len(mo))) if (ho[i] if i < len(ho) else None) != (mo[i] if i < len(mo) else None)), None)
+    detail = {"first_diff_op": full[first] if first is not None and first < len(full) else None, "exit_code": rc, "oracle": bad[:3]}
+    if first is not None and first < len(ho) and first < len(mo):
+        a, b2 = ho[first].split(), mo[first].split()
+        j = next((i for i in range(max(len(a), len(b2))) if (a[i] if i < len(a) else None) != (b2[i] if i < len(b2) else None)), None)
+        if j is not None:
+            detail.update({"implementation_row": a[j] if j < len(a) else None, "model_row": b2[j] if j < len(b2) else None,
+                           "row_key": "L<first>,<second>: ldiph_lc over left contexts | S<b>: lrdiph_rc block | "
+                                      "R<last>,<second-last>: ssid list / cimap over right contexts"})
+    impl_wrong = rc != 0 or bool(bad) or any(l.startswith("d2p bad") or l == "mg 0" for l in ho)
+    c.oblige(f"dict2pid tables of the real code = model-built tables ({label})", False, detail)
+    readable = []
+    for op in sc:
+        w = op.split()
+        readable.append(f"{w[0]} {unhx(w[1])!r} {unhx(w[2])!r}" if w[0] in ("add", "load", "fload") else op[:80])
+    c.violation({"kind": "dict2pid tables after loads and run-time additions", "model_dir": str(modeldir), "ops": sc,
+                 "mdef_line": mdef_line, "readable": readable, **detail,
+                 "implementation_output": [l[:600] for l in ho], "model_output": [l[:600] for l in mo], "stderr_tail": err[-2000:],
+                 "property_oracle_findings": [f"op {k} ({full[k][:60]}): {what}" for k, what in bad[:6]] +
+                                             [f"op {k}: the harness's own comparison with bin_mdef_phone_id_nearest says {l}"
+                                              for k, l in enumerate(ho) if l.startswith("d2p bad")],
+                 "implementation_violates_property": impl_wrong,
+                 "note": "C16_d2p_macros_exact: the model-built tables return the directly looked-up triphone; a difference "
+                         "between the real and the model-built tables is therefore a wrong table cell of the real code (or a "
+                         "model that no longer follows dict2pid.c)",
+                 "how_to_rerun": "python3 tools/check.py C16 --replay <this file>"}, impl_wrong, tag="d2ptabs")
+    return False
+
+
+def d2p_family(c, binp, stats, ncases):
+    """the tie of Props/C16D2p.lean: both shipped models, generated dictionaries and addition sequences"""
+    total = 0
+    for md in (MODELDIR(), vlib.REPO / "model" / "fr-fr"):
+        mt = model_tables(c, binp, md)
+        if mt is None:
+            c.oblige(f"cd_tree of {md.name} can be dumped", False)
+            return False, total
+        phones, sil, dump = mt
+        # D126 (reported, not part of the verdict): does bin_mdef_ciphone_id_nocase invert the phone table of this model?
+        rc, out, err = vlib.run_bin(binp, args=[c.scratch, md, RAW()], stdin_text=f"mdef {sil} " + " ".join(hx(p) for p in phones) + "\n",
+                                    timeout=300)
+        c.cov.setdefault("D126_nocase_phone_lookup", {})[md.name] = out.strip()[:40]
+        g = Gen(c.rng, phones, stats)
+        for i in range(ncases):
+            ops = gen_d2p_case(g, phones, sil)
+            total += len(ops)
+            if not judge_d2p(c, binp, ops, md, phones, sil, dump, f"{md.name} case {i}"):
+                return False, total
+            stats.setdefault("d2p_family_cases", {})
+            stats["d2p_family_cases"][md.name] = stats["d2p_family_cases"].get(md.name, 0) + 1
+    return True, total
 
 
 def canon(ops, out, mout):
@@ -869,10 +1060,10 @@ def driver(c):
     raise vlib.BuildError("ssdriver binary not available")
 
 
-def run_driver(c, text, timeout=900):
+def run_driver(c, text, timeout=900, mdef_file=None):
     import subprocess
     env = dict(os.environ)
-    env["C16_MDEF"] = str(c.mdef_file)
+    env["C16_MDEF"] = str(mdef_file or c.mdef_file)
     r = subprocess.run([str(c.drv), "c16"], input=text.encode(), stdout=subprocess.PIPE, stderr=subprocess.PIPE, timeout=timeout, env=env)
     return r.returncode, r.stdout.decode(errors="replace"), r.stderr.decode(errors="replace")
 
@@ -972,6 +1163,12 @@ def check(c):
         return
     quick = c.tier == "quick"
     plan = [("dict", 50 if quick else 900, False), ("dec", 26 if quick else 450, False)]
+    if os.environ.get("C16_ONLY") == "d2p":   # development aid: only the dict2pid-table family (never set by check.py)
+        okd, nops = d2p_family(c, binp, stats, 3 if quick else 60)
+        c.oblige("dict2pid tables of the real code = tables built by the model (only this family was run: C16_ONLY=d2p)", okd)
+        c.cov.update({"evaluations": sum(stats.get("d2p_family_cases", {}).values()), "distinct_nontrivial": sum(stats.get("d2p_family_cases", {}).values()),
+                      "distribution": stats, "note": "partial run (C16_ONLY=d2p)"})
+        return
     total_ops, ncases, distinct, allok = 0, 0, set(), True
     for mode, n, _ in plan:
         for i in range(n):
@@ -1010,6 +1207,16 @@ def check(c):
                     break
             if not allok:
                 break
+    nd2p = 0
+    if allok:
+        okd, nops = d2p_family(c, binp, stats, 3 if quick else 60)
+        total_ops += nops
+        nd2p = sum(stats.get("d2p_family_cases", {}).values())
+        ncases += nd2p
+        c.oblige("dict2pid tables (every written ldiph_lc / lrdiph_rc row, every rssid row: ids, n_ssid, cimap; dict2pid_internal) "
+                 "of the real code = tables built by the model, after dictionary loads and after every decoder_add_word, "
+                 "on en-us and fr-fr; mdefGood holds on both model definitions", okd)
+        allok = allok and okd
     nfull = 0
     if allok:
         for i in range(1 if quick else 6):
@@ -1025,7 +1232,8 @@ def check(c):
     c.oblige("correspondence: real dict.c/dict2pid.c/decoder_add_word (ASan/UBSan) = model on every generated history, "
              "and the Python property oracle accepts every output", allok)
     never = [k for k in ("rejected:dup", "rejected:dup-case", "rejected:alt-nobase", "rejected:empty") if k not in stats.get("add_result", {})]
-    c.cov.update({"evaluations": ncases + ncorp + nexh, "distinct_nontrivial": len(distinct) + ngrowth + nfull + nexh,
+    c.cov.update({"evaluations": ncases + ncorp + nexh, "distinct_nontrivial": len(distinct) + ngrowth + nfull + nexh + nd2p,
+                  "dict2pid_table_cases(en-us+fr-fr)": nd2p,
                   "exhaustive_small_scope_histories": nexh,
                   "rule": "distinct op histories; every history has >= 15 additions over spellings aimed at each branch of "
                           "dict_add_word/dict_word2basestr (new, alternate, alternate of alternate, duplicate, case-variant duplicate, "
@@ -1179,7 +1387,16 @@ def replay(c, path):
     phones, sil = read_phones(binp)
     obj = json.loads(open(path).read())
     mdef_line = f"mdef {sil} " + " ".join(hx(p) for p in phones)
-    if "initfull" in obj["ops"]:
+    if obj.get("model_dir") and obj.get("kind", "").startswith("dict2pid tables"):
+        md = pathlib.Path(obj["model_dir"])
+        if not md.exists() or vlib.REPO not in md.parents:
+            md = vlib.REPO / "model" / md.name
+        mt = model_tables(c, binp, md)
+        if mt is None:
+            c.oblige(f"cd_tree of {md.name} can be dumped", False)
+        else:
+            judge_d2p(c, binp, obj["ops"], md, mt[0], mt[1], mt[2], "replay")
+    elif "initfull" in obj["ops"]:
         judge_full(c, binp, obj["ops"], phones, sil, mdef_line, "replay")
     else:
         judge(c, binp, obj["ops"], set(), phones, sil, mdef_line, "replay")
